@@ -84,6 +84,12 @@ func Load() (*Spec, *Out) {
 	}
 	o := &Out{Exhaustive: true, Extra: map[string]int64{}, spec: s, start: time.Now(), seen: map[string]struct{}{}, vkeys: map[string]int{}}
 	go o.watchdog()
+	vs.ResourceStop = func() string {
+		if o.memCheck() {
+			return "worker memory limit"
+		}
+		return ""
+	}
 	return s, o
 }
 
@@ -168,9 +174,10 @@ func (o *Out) memLimit() uint64 {
 	return lim
 }
 
-func (o *Out) OverBudget() bool {
+// memCheck looks at the resident set size every 16th call.
+func (o *Out) memCheck() bool {
 	o.memTick++
-	if o.memTick%16 == 0 && !o.stopped {
+	if o.memTick%16 == 0 && !o.memStop {
 		rss := procKB("/proc/self/status", "VmRSS:") << 10
 		if rss == 0 {
 			var ms runtime.MemStats
@@ -180,10 +187,14 @@ func (o *Out) OverBudget() bool {
 		if rss > o.memLimit() {
 			o.stopped = true
 			o.memStop = true
-			o.Cap("worker memory reached %d MiB (leaked goroutines of abandoned executions); remaining cells not explored", rss>>20)
+			o.Cap("worker memory reached %d MiB (leaked goroutines of abandoned executions); remaining cells and executions not explored", rss>>20)
 		}
 	}
-	if o.memStop {
+	return o.memStop
+}
+
+func (o *Out) OverBudget() bool {
+	if o.memCheck() {
 		return true
 	}
 	d := o.Deadline()
